@@ -251,6 +251,8 @@ class GeneralThermodynamics:
             self._drivingForce = self._getDrivingForceTangent
         else:
             raise Exception('Driving force method must be either \'approximate\', \'sampling\', \'tangent\' or \'curvature\'')
+        #Cached composition sets are stored in a layout that is specific to the method that created them
+        self._compset_cache_df = {}
 
     def setDFSamplingDensity(self, density):
         '''
